@@ -1,4 +1,4 @@
-import SC.Proofs.SrcBase
+import SC.Proofs.SrcNames
 /-!
 Loops of the regenerated source, by invariants over interpreter frames (the pattern of `Proofs/Asm*.lean`, one level up):
 the frame at the loop head is characterised by what its registers hold, the induction is over the distance to the end of the string,
